@@ -7,6 +7,7 @@ from ..core import (
     callee_of,
     callee_is,
     callee_name,
+    callee_decl,
     callee_matches,
     strip_generics,
     op_place,
@@ -300,6 +301,46 @@ def rule_index_pairing(ctx):
     for f in idx_fields:
         for x in _muts(prog, owner, f):
             r.check(x.op in allowed, "%s.%s|%s" % (owner, f, x.fn.path), "op=" + x.op, "%s in %s" % (x.op, x.fn.path), "unexpected operation on index vector %s: %s" % (f, x.op), x.site.loc())
+    # an entry is removed from a per-argument list at the position where it was *found in that list*
+    n_rm = 0
+    for f in idx_fields:
+        for x in _muts(prog, owner, f):
+            if x.op not in ("index_mut>alloc::vec::Vec::swap_remove", "index_mut>alloc::vec::Vec::remove"):
+                continue
+            b = x.site.body
+            if len(x.site.node.get("args") or []) < 2:
+                continue
+            n_rm += 1
+            anchor = "%s.%s|%s|remove-position" % (owner, f, x.fn.path)
+            poss = []
+            for o in origins(b, x.site.node["args"][1], transparent=("core::option::Option::unwrap", "core::option::Option::expect")):
+                if o.kind == "call" and callee_decl(callee_of(o.site)) == "core::iter::traits::iterator::Iterator::position":
+                    poss.append(o.site)
+                elif o.kind == "agg" and o.data.get("variant") == "Some":
+                    continue
+                elif o.kind == "call" and callee_decl(callee_of(o.site)) in ("core::iter::traits::iterator::Iterator::next",):
+                    continue
+            if not poss:
+                # the position may come out of a `match list.iter().position(..) { Some(p) => .. }`
+                seen, calls, _ = data_deps(b, x.site.node["args"][1])
+                poss = [c for c in calls if callee_decl(callee_of(c)) == "core::iter::traits::iterator::Iterator::position"]
+            if not poss:
+                r.ok(anchor, "position not obtained by Iterator::position: NOT decided", x.site.loc())
+                continue
+            searched = set()
+            for ps in poss:
+                for o in origins(b, ps.node["args"][0], transparent=("core::slice::iter", "core::iter::traits::collect::IntoIterator::into_iter", "core::ops::deref::Deref::deref", "core::ops::index::Index::index", "core::ops::index::IndexMut::index_mut", "alloc::vec::Vec::as_slice", "core::iter::traits::iterator::Iterator::by_ref")):
+                    if o.kind == "param" and o.data == 1 and o.fields and str(o.fields[0]) in idx_fields:
+                        searched.add(str(o.fields[0]))
+                    elif o.kind in ("undef", "partial"):
+                        continue
+                    else:
+                        searched.add("?" + o.kind)
+            if not searched or any(y.startswith("?") for y in searched):
+                r.ok(anchor, "searched collection not resolved (%s): NOT decided" % sorted(searched), x.site.loc())
+                continue
+            r.check(searched == {f}, anchor, "searched=%s" % sorted(searched), "the removed slot of %s is the one found by a search of %s" % (f, f), "an entry of %s is removed at a position found by searching %s: the two lists hold an attack at unrelated positions, so another attack is dropped from %s (or the call panics)" % (f, sorted(searched), f), x.site.loc())
+    r.floor(n_rm, 2, "positional removals from the per-argument index lists")
 
 
 # ------------------------------------------------------------------------------------------
